@@ -314,3 +314,45 @@ def shared_edge_datum(ctx):
     with_datum = [(c1, c2) for c1, c2, d in listed if d is shared]
     ctx.prove("listed-once-for-every-addressed-edge", sorted(sorted(p) for p in with_datum) == sorted(sorted(p) for p in ctx.case), listed=with_datum)
     ctx.prove("every-block-edge-listed-once", sorted(sorted((c1, c2)) for c1, c2, _ in listed) == sorted(sorted(e) for e in hexa.EDGE_SETS))
+
+
+# ------------------------------------------------------------------------------ degenerate blocks: a collapsed side is still its own side
+@proof("C10", "collapsed-side/other-sides-keep-their-patch-and-projection", cases=["wedge-on-the-axis", "prism"], level="S", samples=1,
+       functions=["classy_blocks.items.side:Side.__eq__", "classy_blocks.items.patch:Patch.add_side", "classy_blocks.lists.face_list:FaceList.add_side",
+                  OP + "set_patch", OP + "project_side"],
+       note="a wedge touching its axis (front side collapsed to a line) and a three-sided prism (back side collapsed): patches and projections "
+            "given to a collapsed side and to full sides that contain its two vertices all reach the assembled mesh, each on the vertices of its own corners")
+def collapsed_side(ctx):
+    import warnings
+
+    import classy_blocks as cb
+    from classy_blocks.mesh import Mesh
+
+    lateral = ["front", "right", "back", "left"]
+    if ctx.case == "wedge-on-the-axis":
+        op = cb.Wedge(cb.Face([[0.0, 0.0, 0.0], [1.0, 0.0, 0.0], [1.0, 1.0, 0.0], [0.0, 1.0, 0.0]]))
+        collapsed = "front"
+    else:
+        f1 = cb.Face([[0.0, 0.0, 0.0], [1.0, 0.0, 0.0], [0.5, 1.0, 0.0], [0.5, 1.0, 0.0]])
+        op = cb.Loft(f1, f1.copy().translate([0.0, 0.0, 1.0]))
+        collapsed = "back"
+    op.set_patch(list(lateral), "walls")
+    op.set_patch("top", "lid")
+    op.project_side(collapsed, "geo_a")
+    for side in ("top", "bottom", "left", "right"):
+        op.project_side(side, "geo_b")
+    mesh = Mesh()
+    mesh.add(op)
+    with warnings.catch_warnings():
+        warnings.simplefilter("ignore")
+        mesh.assemble()
+    blk = mesh.blocks[0]
+    key = lambda side: frozenset(blk.vertices[c].index for c in hexa.FACE_SPEC[side])
+    ctx.prove("that-side-is-collapsed", len(key(collapsed)) < 4, n=len(key(collapsed)))
+    walls = mesh.patch_list.patches["walls"]
+    got = [frozenset(v.index for v in side.vertices) for side in walls.sides]
+    want = [frozenset(key(s_)) for s_ in lateral]
+    ctx.prove("patch-has-every-assigned-side", all(w in got for w in want) and len(got) == len(want), got=[sorted(g) for g in got], want=[sorted(w) for w in want])
+    faces = [(frozenset(v.index for v in f_.side.vertices), f_.label) for f_ in mesh.face_list.faces]
+    for side in ("top", "bottom", "left", "right", collapsed):
+        ctx.prove("projected-side-reaches-the-mesh", any(k == frozenset(key(side)) for k, _ in faces), side=side, faces=[sorted(k) for k, _ in faces])
